@@ -135,8 +135,11 @@ def pwhash_suite(tier):
         n = "c04_PwHash_from_string_parsed_h%d_s%d" % (hl, sl)
         src += c10.h_from_string(n, hl, sl)
         hs.append(Harness(n, unwind=80, timeout=900, site="PwHash::from_string", desc="PwHash::from_string + verify on an arbitrary parsed record (all 2^32 x 2^32 costs): no panic / arithmetic overflow", bounds={"hash_len": hl, "salt_len": sl}))
+    # needs-rehash on any parsed record with symbolic (opslimit, memlimit): total (Ok), no panic / overflow in the cost conversion
+    src += rs.hdr(("barrier", "fmt"), extra=c10.PARSE_STUB) + "\n".join(l for l in c10.H_REHASH.replace("c10_needs_rehash", "c04_needs_rehash_parsed").split("\n") if "REHASH_IFF_COSTS_DIFFER" not in l)  # the answer's value is C10's business
+    hs.append(Harness("c04_needs_rehash_parsed", unwind=70, timeout=900, site="crypto_pwhash_str_needs_rehash", desc="crypto_pwhash_str_needs_rehash on an arbitrary parsed record with symbolic 64-bit limits: returns Ok, no panic / arithmetic overflow", bounds={}))
     s = Suite("C04", src, hs, features=["base64"], stubs=rs.stub_names(("barrier", "fmt"), extra=c10.PARSE_STUB + c10.A2_STUB),
-              functions=["pwhash::PwHash::{from_string,verify}"], assumptions=["the string parser is a contract stub (C10); Argon2 is a contract stub (C09)"])
+              functions=["pwhash::PwHash::{from_string,verify}", "classic::crypto_pwhash::{crypto_pwhash_str_needs_rehash,convert_costs}"], assumptions=["the string parser is a contract stub (C10); Argon2 is a contract stub (C09)"])
     s.tag = "e1-base64"
     return s
 
@@ -270,6 +273,9 @@ def replay(v, scratch):
         import re
         m = re.search(r"_h(\d+)_s(\d+)", v["harness"])
         return c10.replay_from_string(v, scratch, int(m.group(1)), int(m.group(2)))
+    if v["harness"].startswith("c04_needs_rehash"):
+        from props import c10
+        return c10.replay_rehash(v, scratch)
     return _replay(v, scratch)
 
 
